@@ -474,7 +474,12 @@ func Generate(r *hlib.Rng, class string, mtime int64) *Gen {
 		rootMap := r.Chance(1, 3)
 		for _, z := range g.Zones {
 			if r.Chance(3, 4) && !(rootMap && r.Chance(3, 4)) {
-				g.Map("M", z, "m1", true)
+				if r.Chance(1, 5) {
+					// a map without any subnet: it sorts right after m9 / m1, whose range points must not leak
+					g.Map("M", z, "n0", true)
+				} else {
+					g.Map("M", z, "m1", true)
+				}
 			}
 		}
 		if rootMap {
@@ -491,7 +496,11 @@ func Generate(r *hlib.Rng, class string, mtime int64) *Gen {
 			// a client-subnet map for some of the zones: names with an M map and no 8 map, both, neither
 			for _, z := range g.Zones {
 				if r.Chance(1, 2) {
-					g.Map("8", z, "e1", true)
+					if r.Chance(1, 5) {
+						g.Map("8", z, "f0", true) // no subnets; sorts right after e9 / e1
+					} else {
+						g.Map("8", z, "e1", true)
+					}
 				}
 			}
 			if r.Chance(1, 4) {
